@@ -279,10 +279,10 @@ def check_C14(ctx):
     for m in ("PathString", "Samples", "HitObjectLine", "Trace_HitObjectLine"):
         sany(ctx, m)
     plan = [("typesquick", 0, 1), ("combo", 0, 3), ("num", 0, 2), ("bank", 0, 1), ("nodes", 0, 1),
-            ("pathx", 3, 1), ("path", 4, 1)]
+            ("pathx", 3, 1), ("path", 4, 1), ("pseg", 0, 1)]
     if thorough:
         plan = [("typesfull", 0, 1), ("typesquick", 0, 1), ("combo", 0, 4), ("num", 0, 3), ("bank", 0, 2), ("nodes", 0, 2),
-                ("pathx", 4, 1), ("path", 5, 1), ("pathr", 6, 1)]
+                ("pathx", 4, 1), ("path", 5, 1), ("pathr", 6, 1), ("pseg", 0, 2)]
     for (a, n, ml) in plan:
         f = hitobj_cases(ctx, a, n, ml)
         summ = harness(ctx, ["hitobj", "replay", "--prop", "C14", "--spellings", "2"], cases_file=f, name="hitobj-" + a,
@@ -321,6 +321,11 @@ def check_C06(ctx):
     f = timing_cases(ctx, "AlphaShape", "GensTwo", 3 if thorough else 2)
     summ = harness(ctx, ["timing", "replay", "--prop", "C06", "--spellings", "2"], cases_file=f, name="timing-replay", timeout=3600)
     report_mismatches(ctx, summ, "a rejected timing line has an effect")
+    # long random sequences with frequent rejections: with == without the rejected lines
+    summ = harness(ctx, ["hitobj", "c06rel", "--runs", "200" if thorough else "40", "--lines", "150"], name="hitobj-c06rel", timeout=3600)
+    report_mismatches(ctx, summ, "a rejected hit-object line has an effect (long random sequences)")
+    summ = harness(ctx, ["timing", "c06rel", "--runs", "400" if thorough else "80", "--lines", "60"], name="timing-c06rel", timeout=3600)
+    report_mismatches(ctx, summ, "a rejected timing line has an effect (long random sequences)")
     ctx.assumptions += ["key/value, event and colour sections are covered by the C11 check (Records), which asserts the same stutter property"]
     return finish(ctx, "model_checking",
                   "HitObjectLine models the state one line can pass to the next (last object, scratch control-point list); TLC checks that "
